@@ -633,3 +633,29 @@ def run_I3(chk, rule="I3"):
                         f"{f.short}(): `{A.short(s, 70)}` combines the user's per-leg data ({', '.join(params)}; given in the order of the "
                         f"tensor's legs) with native per-leg fields, but no read of `{me}.trans` / consume_transpose() precedes it on "
                         f"every path: for a lazily transposed tensor the data is attributed to the wrong legs")
+
+
+def run_I4(chk, rule="I4", floor=3):
+    """enumeration order of per-leg sequences paired position by position (engine E3b `seqorder`)"""
+    from ..core.seqorder import Engine
+    prog = chk.prog
+    chk.rule(rule, "sequences paired position by position (zip) are enumerated in the same leg order (tensor-leg order vs native storage order)",
+             floor=floor)
+    for mn in MODULES:
+        prog.module(mn)
+    eng = Engine(prog, MODULES)
+    n = 0
+    for f in functions(prog):
+        src = A.text(f.node)
+        if "zip(" not in src:
+            continue
+        fo = eng.fo(f)
+        fo.check_zips()
+        for fd in fo.findings:
+            n += 1
+            if fd.msg is None:
+                chk.ok(rule, (f, fd.node), fd.node, fd.facts)
+            else:
+                chk.bad(rule, (f, fd.node), fd.node, f"{f.short}(): {fd.msg}", fd.facts)
+    chk.extra["zip_sites_typed"] = n
+    return n
